@@ -199,9 +199,7 @@ pub fn run_check(args: &Args, spec: CheckSpec) -> ! {
         .collect();
     let mut all: Vec<Stats> = Vec::new();
     let n = scenarios.len();
-    for (i, sc) in scenarios.iter().enumerate() {
-        let remaining = (total_budget - start.elapsed().as_secs_f64()).max(1.0);
-        let share = remaining / (n - i) as f64;
+    let run_one = |sc: &Scenario, share: f64| -> Stats {
         let mut cfg = Config::new(&sc.name, sc.p, sc.f);
         if let Some(t) = sc.threads {
             cfg.threads = t;
@@ -224,7 +222,28 @@ pub fn run_check(args: &Args, spec: CheckSpec) -> ! {
                 st.capped.as_ref().map(|c| format!(" capped: {}", c)).unwrap_or_default()
             );
         }
-        all.push(st);
+        st
+    };
+    // pass 1: an equal share of 40% of the budget each (unused time rolls
+    // over); pass 2: scenarios that hit their cap are explored again from
+    // scratch with the time that is left, split between them
+    let first_budget = if n > 1 { total_budget * 0.4 } else { total_budget };
+    for (i, sc) in scenarios.iter().enumerate() {
+        let remaining = (first_budget - start.elapsed().as_secs_f64()).max(0.5);
+        let share = remaining / (n - i) as f64;
+        all.push(run_one(sc, share));
+    }
+    let capped_idx: Vec<usize> = all.iter().enumerate().filter(|(_, s)| s.capped.as_deref() == Some("wall-clock cap reached") && s.machinery_errors.is_empty()).map(|(i, _)| i).collect();
+    for (k, i) in capped_idx.iter().enumerate() {
+        let remaining = total_budget - start.elapsed().as_secs_f64();
+        let share = remaining / (capped_idx.len() - k) as f64;
+        if share < all[*i].wall_s * 1.5 {
+            continue;
+        }
+        let st = run_one(scenarios[*i], share);
+        if st.executions >= all[*i].executions || st.capped.is_none() {
+            all[*i] = st;
+        }
     }
     // machinery errors are never verdicts
     let mach: Vec<String> = all.iter().flat_map(|s| s.machinery_errors.iter().cloned()).collect();
@@ -332,7 +351,7 @@ pub fn run_check(args: &Args, spec: CheckSpec) -> ! {
             "evaluations": execs,
             "distinct_nontrivial": distinct_nontrivial,
             "distinct_end_observations": obs,
-            "rule": spec.rule,
+            "rule": format!("{} [counted as non-trivial: executions that used at least one preemption/fault or took at least two explored choices; distinct_nontrivial = distinct end observations among those, summed over scenarios]", spec.rule),
             "samples": samples,
             "exhaustive": capped.is_empty(),
             "bounds": spec.bounds,
